@@ -192,7 +192,17 @@ func c03(c *Ctx) {
 			dvc = []uint32{1024, 512, 100}[(i/97)%3]
 		}
 		mode := modeFor(i, rng)
-		a := model.Gen(rng, class, model.GenOpts{NoBig: true, IDPrefix: "a"})
+		o3 := model.GenOpts{NoBig: true, IDPrefix: "a"}
+		if class == "tall" {
+			o3.Docs = []int{1024, 0, 2048}[(i/97)%3]
+		} else if i%6 == 0 {
+			// document counts at exact multiples of the doc-value chunk size
+			o3.Docs = int(dvc) * (1 + rng.Intn(4))
+			if o3.Docs > 80 {
+				o3.Docs = 0
+			}
+		}
+		a := model.Gen(rng, class, o3)
 		b := model.Gen(rng, []string{"small", "mid", "one", "empty"}[rng.Intn(4)], model.GenOpts{NoBig: true, IDPrefix: "b"})
 		forceDV(a, rng)
 		forceDV(b, rng)
@@ -284,7 +294,12 @@ func c04(c *Ctx) {
 		rng := c.Rng(i)
 		class := classFor(i, rng, tallEvery)
 		mode := modeFor(i, rng)
-		b := model.Gen(rng, class, model.GenOpts{Syn: rng.Intn(3) == 0, Vec: VecBuild && rng.Intn(2) == 0})
+		o4 := model.GenOpts{Syn: rng.Intn(3) == 0, Vec: VecBuild && rng.Intn(2) == 0}
+		if class == "tall" {
+			// document counts at exact multiples of the doc-value chunk size come round deterministically
+			o4.Docs = []int{1024, 0, 2048, 0}[(i/tallEvery)%4]
+		}
+		b := model.Gen(rng, class, o4)
 		if class == "tall" {
 			forceDV(b, rng)
 		}
